@@ -17,9 +17,12 @@ def run(ctx):
         nh, nr = (3, 10) if ctx.quick() else (24, 30)
         res = sysmon.st.run_readonly(sysmon.sysroot(ctx, 'c15'), 'c15', '/usr/bin/gcc', ctx.seed * 17, nh, nr)
         sysmon.feed(ctx, res, findings, 'system read-only gcc')
+        for conf in ('rw_mode_only', 'file'):
+            res = sysmon.st.run_readonly(sysmon.sysroot(ctx, 'c15'), 'c15' + conf[:2], '/usr/bin/gcc', ctx.seed * 23, 2 if ctx.quick() else 8, 6 if ctx.quick() else 20, conf=conf)
+            sysmon.feed(ctx, res, findings, f'system read-only gcc, configuration variant {conf}')
         res = sysmon.st.run_readonly(sysmon.sysroot(ctx, 'c15'), 'c15o', '/usr/bin/gcc', ctx.seed * 19, 1, 6, oversize=True)
         sysmon.feed(ctx, res, findings, 'system read-only, directory larger than its size limit')
-    ctx.rules.append('system: cache populated read-write (6 requests), server restarted with SCCACHE_LOCAL_RW_MODE=READ_ONLY (one third with SCCACHE_RECACHE=1, half with preprocessor cache mode off), '
+    ctx.rules.append('system: three configuration variants (SCCACHE_DIR + SCCACHE_LOCAL_RW_MODE; SCCACHE_LOCAL_RW_MODE as the only disk-cache variable with the cache at its default location; config file with rw_mode = "READ_ONLY"); cache populated read-write (6 requests), half of the histories with damaged entries, server restarted with SCCACHE_LOCAL_RW_MODE=READ_ONLY (one third with SCCACHE_RECACHE=1, half with preprocessor cache mode off), '
                      'history of repeats / edits / failures / restarts; listing of every file with sha256 before and after must be identical and every result must equal the direct compile')
     ctx.assumptions += ['mtimes are touched on every hit (metadata, not part of the statement)', 'proviso of reopen_keeps_files_partial: the directory is within its size limit at first use (F-C15-a otherwise)']
 
